@@ -13,10 +13,10 @@ Twin of the next-generation (v3) per-target transaction protocol of onos-config:
 The code is mirrored as it is, quirks included:
   * `updateConfigurationStatus` / `updateTransactionStatus` return nil on a CAS conflict and the
     caller continues with its next write;
-  * the committed and the applied side map of the configuration store are the same atomix map
-    (`getTarget` builds the name `configurations-<id>` for both), and `UpdateStatus` embeds the
-    caller's `Committed.Values` in the entry, so `Get` returns entry values overlaid by whatever was
-    applied last;
+  * `UpdateStatus` embeds the caller's `Committed.Values` in the entry (only `Create`/`Update` write
+    the committed side map), so `Get` returns the entry's values overlaid by the committed side map
+    as `Create` left it; the applied values live in their own side map (since fix 7dda02f; before,
+    both side maps were one atomix map);
   * `store` takes the address of its loop variable (`&pv`, Go 1.19 loop semantics per go.mod), so
     every insert/update of one call writes the content of the element iterated last;
   * `commitChange` assigns into `configuration.Committed.Values` without a nil check;
@@ -281,7 +281,8 @@ deriving DecidableEq, Repr, Inhabited
 structure Sys where
   txs : List Tx := []
   cfg : Cfg := {}
-  side : Values := []
+  cside : Values := []   -- the committed side map (written by `Create` only)
+  side : Values := []    -- the applied side map
   entity : Bool := true
   persistent : Bool := false
   rels : List Str := []
@@ -298,8 +299,8 @@ def getTx (s : Sys) (i : Nat) : Option Tx :=
 def setTx (s : Sys) (i : Nat) (t : Tx) : Sys :=
   if i = 0 then s else { s with txs := s.txs.set (i - 1) t }
 
-/-- what `configurations.Get` returns: the entry, `Committed.Values` overlaid by the side map
-    (`populate` over the *committed* map, which is the same atomix map), `Applied.Values` = side map. -/
+/-- what `configurations.Get` returns: the entry, `Committed.Values` overlaid by the committed side
+    map (`populate`), `Applied.Values` = the applied side map. -/
 structure View where
   c : Cfg
   cVals : Values
@@ -307,7 +308,7 @@ structure View where
 deriving Repr
 
 def view (s : Sys) : View :=
-  { c := s.cfg, cVals := vOverlay s.cfg.cValues s.side, aVals := s.side }
+  { c := s.cfg, cVals := vOverlay s.cfg.cValues s.cside, aVals := s.side }
 
 /-! ## Acts: the store writes of the transaction reconciler -/
 
